@@ -185,6 +185,23 @@ func checkTargetsForm(c *tgtCase, form int) (diff string) {
 	if after := deepCopy(r); !reflect.DeepEqual(before, after) {
 		return "enumerating targets modified the resolution result (incl. spare slice capacity)"
 	}
+	// one sequence value ranged over again (a retry loop that keeps it), also after an early stop: the same targets
+	seq := r.Targets(c.Net)
+	for pass := 1; pass <= 3; pass++ {
+		n := 0
+		for t := range seq {
+			if pass == 2 && n == 1 {
+				break // the second pass stops after its first target
+			}
+			if n >= len(c.Out) || !sameOut(projTarget(t), c.Out[n]) {
+				return fmt.Sprintf("pass %d over the same sequence value differs at target %d", pass, n+1)
+			}
+			n++
+		}
+		if pass != 2 && n != len(c.Out) {
+			return fmt.Sprintf("pass %d over the same sequence value yields %d targets, the first pass %d", pass, n, len(c.Out))
+		}
+	}
 	// early termination after every yield: a conforming prefix, and the result still untouched
 	for k := 0; k <= len(c.Out); k++ {
 		n := 0
